@@ -40,6 +40,8 @@ type nSub struct {
 	Unstable        bool
 	SumC1           float64
 	NegC1           bool
+	OrgTot          float64 // Σ NAOS + NFOS + MINAOS + MINFOS after this sub-step
+	Dsumm, Nh4sum   float64 // applied-fertiliser sums after this sub-step
 }
 
 type nDay struct {
@@ -66,6 +68,7 @@ type nRun struct {
 	Res          *proj.RunResult
 	Steps        map[int]int
 	unstableSeen bool
+	sowOf, harOf map[int]int // observed sowing / harvest day per rotation entry (run_nitro_auto.go)
 }
 
 func snapN(g *hermes.GlobalVarsMain) nSnap {
@@ -92,16 +95,21 @@ func runNitroObserved(c *vh.Ctx, p *proj.Project) *nRun {
 		r.Res = &proj.RunResult{Err: err}
 		return r
 	}
+	if a := nitroAutoOf[p]; a != nil {
+		// automatic management: the generated automan.txt replaces the shipped table
+		if err := p.WriteAutoman(root, a.Entries); err != nil {
+			r.Res = &proj.RunResult{Err: err}
+			return r
+		}
+	}
 	var cur *nDay
 	probes := &hermes.VerifProbes{
 		DayStart: func(g *hermes.GlobalVarsMain, w *hermes.WaterSharedVars, n *hermes.NitroSharedVars, cs *hermes.CropSharedVars, zeit int, wdt float64) {
 			cur = &nDay{Zeit: zeit, Date: g.AKTUELL, Start: snapN(g)}
-			cur.Depo = g.DEPOS / 365 * g.DT.Num
-			if g.NBR >= 2 && g.ZTBR[g.NBR-2] == zeit {
-				if x := g.BRKZ[g.NBR-2] * g.BREG[g.NBR-2] * 0.01; x > 0 {
-					cur.IrrN = x
-				}
-			}
+			// day inputs expected from the generated INPUT (configuration text, irrigation schedule file the harness
+			// wrote), not from the arrays of the code under test
+			cur.Depo = p.DepositionPerDay()
+			cur.IrrN = nitroIrrN(p, zeit)
 			cur.SowDay = zeit == g.SAAT[g.AKF.Index]
 			cur.HarvestDay = zeit == g.ERNTE[g.AKF.Index]
 			cur.WumasStart = g.WUMAS
@@ -115,7 +123,13 @@ func runNitroObserved(c *vh.Ctx, p *proj.Project) *nRun {
 				return
 			}
 			s := nSub{Subd: subd, Wdt: wdt, Steps: steps, Pesum: g.PESUM, Aufnasum: g.AUFNASUM, Schnorr: g.SCHNORR, Qdrain: g.QDRAIN, Drainloss: g.DRAINLOSS,
-				Unstable: g.C1NotStable != ""}
+				Unstable: g.C1NotStable != "", Dsumm: g.DSUMM, Nh4sum: g.NH4Sum}
+			for z := 0; z < 21; z++ {
+				s.OrgTot += g.NAOS[z] + g.NFOS[z]
+			}
+			for z := 0; z < 4; z++ {
+				s.OrgTot += g.MINAOS[z] + g.MINFOS[z]
+			}
 			if g.DRAIDEP >= 1 && g.DRAIDEP <= g.N {
 				s.Q1Drain = g.Q1[g.DRAIDEP]
 			}
